@@ -256,6 +256,24 @@ def check_finishers(ctx, cfg):
                 if a.prove(c.facts, "Eq", pos, N):
                     evidence = "position == N under the dominating facts %s" % fstr(c.facts)
             if evidence is None:
+                # the fullness test may reach the finisher through a merged boolean (`match full && probe { true => finish .. }`): judge the tree-shaped
+                # body, where every copy of this finisher lies on one path with that path's own facts
+                at_ = ctx.analysis_inl(cfg, b["key"], split=True, tag="fin")
+                sites_ = [x for x in (at_.calls if at_ is not None else []) if (x.key or x.fn) == (c.key or c.fn) and x.at == c.at and x.args]
+                good_ = bool(sites_)
+                for x in sites_:
+                    p2, l2 = owner_value_position(at_, db, owners, x, x.args[0])
+                    oty2 = x.targs[0] if is_forget else (at_.local_ty(l2) if l2 is not None else None)
+                    if p2 is None or oty2 is None or oty2.get("k") != "adt":
+                        good_ = False
+                        break
+                    N2 = at_.tenv.length([y for y in oty2["args"] if y.get("k") != "region"][-1])
+                    if not at_.prove(x.facts, "Eq", p2, N2):
+                        good_ = False
+                        break
+                if good_:
+                    evidence = "position == N under the path facts of each of the %d path(s) that reach this finisher (tree-shaped body)" % len(sites_)
+            if evidence is None:
                 # locate the owner local
                 if loc is None:
                     st = State(c.mem, c.facts)
